@@ -403,11 +403,13 @@ class Ctx:
         ev = {"property_id": self.prop, "tier": self.tier, "seed": self.seed, "level": self.level,
               "coverage": cov, "assumptions": self.assumptions, "wall_s": wall,
               "violations": len(self.violations)}
-        os.makedirs(os.path.join(VERIF, "evidence"), exist_ok=True)
-        tmp = os.path.join(VERIF, "evidence", self.prop + ".json.tmp")
+        # evidence/ describes /repo itself; a run against a scratch tree (VERIF_REPO) writes elsewhere
+        evdir = os.path.join(VERIF, "evidence") if REPO == "/repo" else os.path.join(CACHE, "evidence-" + _repo_tag())
+        os.makedirs(evdir, exist_ok=True)
+        tmp = os.path.join(evdir, self.prop + ".json.tmp")
         with open(tmp, "w") as f:
             json.dump(ev, f, indent=1, sort_keys=True, ensure_ascii=False, default=str)
-        os.replace(tmp, os.path.join(VERIF, "evidence", self.prop + ".json"))
+        os.replace(tmp, os.path.join(evdir, self.prop + ".json"))
         for k in sorted(self.known_hit):
             print("KNOWN-FINDING: property=%s %s" % (self.prop, self.known_hit[k]))
         seen = set()
